@@ -73,6 +73,90 @@ def size(a):
     return 1 + sum(size(x) for x in a[1:] if isinstance(x, list) and x and isinstance(x[0], str))
 
 
+# ---------------------------------------------------------------- sampling
+# Strings that (roughly) match a pattern.  This only STEERS input generation towards deep matches; what an
+# input ought to produce is decided by the TLA+ specification, never by this code, so an inaccuracy here
+# costs coverage, not soundness.
+_CLS = {"alnum": is_alnum, "alpha": lambda b: (65 <= b <= 90) or (97 <= b <= 122), "blank": lambda b: b in (32, 9),
+        "cntrl": lambda b: b < 32 or b == 127, "digit": lambda b: 48 <= b <= 57, "graph": lambda b: 33 <= b <= 126,
+        "lower": lambda b: 97 <= b <= 122, "print": lambda b: 32 <= b <= 126, "punct": lambda b: 33 <= b <= 126 and not is_alnum(b),
+        "space": lambda b: b in (32, 9, 10, 11, 12, 13), "upper": lambda b: 65 <= b <= 90,
+        "xdigit": lambda b: (48 <= b <= 57) or (65 <= b <= 70) or (97 <= b <= 102)}
+
+
+def _fold(bs):
+    out = set(bs)
+    for b in bs:
+        if 65 <= b <= 90: out.add(b + 32)
+        if 97 <= b <= 122: out.add(b - 32)
+    return out
+
+
+def byteset(a, ci=False):
+    t = a[0]
+    if t == "ccl":
+        st = set()
+        for it in a[2]:
+            if it[0] == "b": st.add(it[1])
+            elif it[0] == "r": st.update(range(it[1], it[2] + 1))
+            elif it[0] == "p": st.update(b for b in range(256) if _CLS[it[1]](b))
+            elif it[0] == "np": st.update(b for b in range(256) if not _CLS[it[1]](b))
+        if ci: st = _fold(st)
+        return set(range(256)) - st if a[1] else st
+    if t == "diff": return byteset(a[1], ci) - byteset(a[2], ci)
+    if t == "union": return byteset(a[1], ci) | byteset(a[2], ci)
+    return set()
+
+
+def sample(a, rng, defs=(), alphabet=(97,), ci=False, dotall=False, depth=0):
+    """a list of bytes matched (approximately) by pattern a"""
+    t = a[0]
+    if t == "chr":
+        b = a[1]
+        if ci and rng.random() < 0.5: b = min(_fold([b]) - {b} or {b})
+        return [b]
+    if t == "str": return list(a[1])
+    if t == "dot":
+        c = [b for b in alphabet if dotall or b != 10] or [97]
+        return [rng.choice(c)]
+    if t in ("ccl", "diff", "union"):
+        st = byteset(a, ci)
+        pref = [b for b in alphabet if b in st]
+        if pref and rng.random() < 0.85: return [rng.choice(pref)]
+        return [rng.choice(sorted(st))] if st else []
+    if t == "cat": return sample(a[1], rng, defs, alphabet, ci, dotall, depth) + sample(a[2], rng, defs, alphabet, ci, dotall, depth)
+    if t == "alt": return sample(a[rng.choice([1, 2])], rng, defs, alphabet, ci, dotall, depth)
+    if t in ("star", "plus", "opt"):
+        lo = 1 if t == "plus" else 0
+        hi = 1 if t == "opt" else (4 if depth < 2 else 2)
+        out = []
+        for _ in range(rng.randint(lo, hi)): out += sample(a[1], rng, defs, alphabet, ci, dotall, depth + 1)
+        return out
+    if t == "rep":
+        hi = a[3] if a[3] >= 0 else a[2] + 2
+        out = []
+        for _ in range(rng.randint(a[2], max(a[2], min(hi, a[2] + 3)))): out += sample(a[1], rng, defs, alphabet, ci, dotall, depth + 1)
+        return out
+    if t == "grp":
+        return sample(a[3], rng, defs, alphabet, (a[1] == 1) if a[1] >= 0 else ci, (a[2] == 1) if a[2] >= 0 else dotall, depth)
+    if t == "ref": return sample(defs[a[1] - 1], rng, defs, alphabet, ci, dotall, depth)
+    return []
+
+
+def sample_input(src, rng, alphabet, maxlen=24):
+    """concatenation of strings matching rules of the rule set (head + trailing context), with a little noise"""
+    out = []
+    defs = src.get("defs", [])
+    for _ in range(rng.randint(1, 3)):
+        r = rng.choice(src["rules"])
+        out += sample(r["head"], rng, defs, alphabet, src.get("ci", False))
+        if r["trail"] != ["none"]:
+            out += sample(r["trail"], rng, defs, alphabet, src.get("ci", False))
+        if rng.random() < 0.3: out.append(rng.choice(alphabet))
+    if src.get("sevenbit"): out = [b & 127 for b in out]
+    return bytes(out[:maxlen])
+
+
 # ---------------------------------------------------------------- rendering
 def _byte_plain_ok(b):
     return is_alnum(b) or b == 95  # '_'
